@@ -26,6 +26,9 @@ CONSTANTS MaxPg,      \* model pages 1..MaxPg
           AllowNoSync,\* journal headers written with magic from the start (synchronous=OFF)
           FixOOB,     \* TRUE = checksum() bounds as repaired, FALSE = as originally written
           FixFirstRb, \* TRUE = CommitJournal treats an empty database file as "nothing to capture" (as repaired)
+          AllowCrash, \* the LiteFS process may die (volatile state lost) and restart on the same data directory
+          FixJournalNoPS, \* TRUE = restart with a journal but unknown page size just discards the journal (as repaired)
+          FixModeOnOpen,  \* TRUE = restart re-derives the journal mode from the recovered header (as repaired)
           AllowRetain,\* retention sweeps (Store.EnforceRetention with a zero-length retention) between operations
           Emit        \* "none" | "idle" (print the path of every distinct idle state) | "end"
 
@@ -38,7 +41,7 @@ Range(f) == {f[x] : x \in DOMAIN f}
 VARIABLES
   \* ---- durable files ----
   dbf,      \* Seq of page contents; file length = Len(dbf) pages
-  jr,       \* journal: [ex, magic, orig, recs]   recs : pg -> original content
+  jr,       \* journal: [ex, hdr ("none" zeroed/empty | "unsynced" no magic yet | "valid"), orig, recs]   recs : pg -> original content
   wal,      \* [ex, hdr (salt of header, 0 = no header), frames]
   ltxN,     \* number of LTX files written
   ltxLast,  \* newest LTX file [min,max,pre,post,commit,pages] (or NoLtx)
@@ -47,19 +50,19 @@ VARIABLES
   \* ---- environment (SQLite) and reference semantics ----
   pc, plan, todo, refImg, ops, salts, mx, ckpted,
   \* ---- monitors accumulated over the behaviour (history, cheap) ----
-  okDelta, okChain, okImage,
+  okDelta, okChain, okImage, okRecover, crashed,
   hist
 
 lvars == <<psKnown, pageN, pos, mode, dirty, pchk, blk, woff, wsalt, foff, wchk, fault>>
 dvars == <<dbf, jr, wal, ltxN, ltxLast>>
 evars == <<pc, plan, todo, refImg, ops, salts, mx, ckpted>>
-mvars == <<okDelta, okChain, okImage>>
+mvars == <<okDelta, okChain, okImage, okRecover, crashed>>
 vars  == <<dvars, lvars, evars, mvars, hist>>
 view  == <<dvars, lvars, evars, mvars>>
 
-NoJr  == [ex |-> FALSE, magic |-> FALSE, orig |-> 0, recs |-> <<>>]
+NoJr  == [ex |-> FALSE, hdr |-> "none", orig |-> 0, recs |-> <<>>]
 NoWal == [ex |-> FALSE, hdr |-> 0, frames |-> <<>>]
-NoLtx == [min |-> 0, max |-> 0, pre |-> {}, post |-> {}, commit |-> 0, pages |-> <<>>]
+NoLtx == [min |-> 0, max |-> 0, pre |-> {}, post |-> {}, commit |-> 0, pages |-> <<>>, wsalt |-> 0, woff |-> 0, wn |-> 0]
 NoPlan == [kind |-> "none"]
 EmptyChk == {}
 INV == [ok |-> FALSE, agg |-> {}]
@@ -70,7 +73,7 @@ Init ==
   /\ psKnown = FALSE /\ pageN = 0 /\ pos = [t |-> 0, c |-> EmptyChk] /\ mode = "rb" /\ dirty = {}
   /\ pchk = <<>> /\ blk = <<>> /\ woff = 0 /\ wsalt = 0 /\ foff = <<>> /\ wchk = <<>> /\ fault = "none"
   /\ pc = "idle" /\ plan = NoPlan /\ todo = <<>> /\ refImg = <<>> /\ ops = 0 /\ salts = 0 /\ mx = 0 /\ ckpted = FALSE
-  /\ okDelta = TRUE /\ okChain = TRUE /\ okImage = TRUE
+  /\ okDelta = TRUE /\ okChain = TRUE /\ okImage = TRUE /\ okRecover = "ok" /\ crashed = FALSE
   /\ hist = <<>>
 
 (* ====================== LiteFS checksum machinery (db.go checksum()) ====================== *)
@@ -127,6 +130,7 @@ FrameAt(i) == wal.frames[i]
 Logical(n) == [p \in 1..n |-> IF p \in DOMAIN foff THEN FrameAt(foff[p]).c ELSE IF p <= Len(dbf) THEN dbf[p] ELSE ZERO]
 FromScratch(n) == {<<p, Logical(n)[p]>> : p \in {q \in 1..n : q # LockPg}}
 CurSize == Len(refImg)
+EnvWal == refImg # <<>> /\ refImg[1].wal      \* the journal mode SQLite reads from the database header
 ApplyL(img, e) == [p \in 1..e.commit |-> IF p \in DOMAIN e.pages THEN e.pages[p] ELSE IF p <= Len(img) THEN img[p] ELSE ZERO]
 SameImage(a, b) == Len(a) = Len(b) /\ \A p \in 1..Len(a) : p # LockPg => a[p] = b[p]
 
@@ -141,7 +145,7 @@ H(a, args) == hist' = Append(hist, [a |-> a, g |-> args, o |-> Obs])
 Live == fault = "none"
 
 BeginJ ==
-  /\ pc = "idle" /\ ops < MaxOps /\ Live /\ mode = "rb"
+  /\ pc = "idle" /\ ops < MaxOps /\ Live /\ ~EnvWal
   /\ pc' = "j_create" /\ todo' = <<>> /\ ops' = ops + 1
   /\ UNCHANGED <<dvars, lvars, refImg, salts, mx, ckpted, mvars>>
   /\ \E ns \in 1..MaxPg, M \in SUBSET Pages, out \in {"commit", "rb_early", "rb_spill"},
@@ -158,7 +162,7 @@ BeginJ ==
 \* journal created (or re-opened in TRUNCATE/PERSIST mode), header + records of the pre-existing pages in M
 JCreate ==
   /\ pc = "j_create"
-  /\ jr' = [ex |-> TRUE, magic |-> plan.nosync, orig |-> CurSize,
+  /\ jr' = [ex |-> TRUE, hdr |-> IF plan.nosync THEN "valid" ELSE "unsynced", orig |-> CurSize,
             recs |-> [p \in {q \in plan.M : q <= CurSize} |-> refImg[p]]]
   /\ psKnown' = TRUE                 \* WriteJournalAt takes the page size from the header
   /\ pc' = IF plan.out = "rb_early" THEN "j_final" ELSE "j_sync"
@@ -168,7 +172,7 @@ JCreate ==
 
 JSync ==     \* fsync + magic/nRec written into the header, before the first database write
   /\ pc = "j_sync"
-  /\ jr' = [jr EXCEPT !.magic = TRUE]
+  /\ jr' = [jr EXCEPT !.hdr = "valid"]
   /\ pc' = "j_pages"
   /\ todo' = IF plan.out = "commit" THEN SeqOfSet(plan.M)
              ELSE <<Head(SeqOfSet(plan.M))>>          \* spill: only the first page reaches the file
@@ -222,17 +226,17 @@ JRbPage ==
 
 JournalGone == IF plan.fin = "DELETE" THEN NoJr
                ELSE IF plan.fin = "TRUNCATE" THEN [NoJr EXCEPT !.ex = TRUE]
-               ELSE [jr EXCEPT !.magic = FALSE]
+               ELSE [jr EXCEPT !.hdr = "none"]
 
 \* CommitJournal (db.go), reached by unlink / truncate / zeroed header
 JFinal ==
   /\ pc = "j_final"
   /\ LET newRef == IF plan.out = "commit" THEN NewImage ELSE refImg IN
-     IF ~jr.magic \/ (FixFirstRb /\ dbf = <<>>)
+     IF jr.hdr # "valid" \/ (FixFirstRb /\ dbf = <<>>)
      THEN \* invalid header (or, as repaired, still-empty database file): only invalidates the journal
           /\ jr' = JournalGone /\ dirty' = {}
           /\ okImage' = (okImage /\ plan.out # "commit")
-          /\ UNCHANGED <<ltxN, ltxLast, pageN, pos, mode, pchk, blk, fault, okDelta, okChain>>
+          /\ UNCHANGED <<ltxN, ltxLast, pageN, pos, mode, pchk, blk, fault, okDelta, okChain, okRecover, crashed>>
           /\ refImg' = refImg
      ELSE IF dbf = <<>>
      THEN \* "cannot read database size: EOF"
@@ -247,7 +251,7 @@ JFinal ==
               cs == Checksum(r[1], r[2], commit, <<>>)
               newMode == IF 1 \in pgs /\ dbf[1].wal THEN "wal" ELSE "rb"
               e == [min |-> pos.t + 1, max |-> pos.t + 1, pre |-> pos.c, post |-> cs.c, commit |-> commit,
-                    pages |-> [p \in pgs |-> dbf[p]]]
+                    pages |-> [p \in pgs |-> dbf[p]], wsalt |-> 0, woff |-> 0, wn |-> 0]
           IN IF readErr \/ mismatch \/ snapBad \/ cs.err # "none" \/ commit = 0
              THEN /\ fault' = (IF commit = 0 THEN "commit-zero" ELSE IF readErr THEN "read-short" ELSE IF mismatch THEN "chk-mismatch"
                                ELSE IF snapBad THEN "snapshot-pages" ELSE cs.err)
@@ -260,7 +264,7 @@ JFinal ==
                                          /\ \A p \in DOMAIN e.pages : p <= e.commit /\ p # LockPg)
                   /\ okChain' = (okChain /\ e.pre = pos.c)
                   /\ okImage' = okImage
-                  /\ UNCHANGED fault
+                  /\ UNCHANGED <<fault, okRecover, crashed>>
   /\ pc' = IF plan.out = "commit" /\ plan.ns < Len(dbf) THEN "j_trunc" ELSE "idle"
   /\ UNCHANGED <<dbf, wal, psKnown, woff, wsalt, foff, wchk, plan, todo, ops, salts, mx, ckpted>>
   /\ H("JFinal", [fin |-> plan.fin])
@@ -278,7 +282,7 @@ JTrunc ==
 \* a write transaction in WAL mode: frames for the pages of M in page order, optionally preceded by an
 \* early (spilled) version of page `dup`; out = "commit" | "rollback" (frames without commit frame)
 BeginW ==
-  /\ pc = "idle" /\ ops < MaxOps /\ Live /\ mode = "wal"
+  /\ pc = "idle" /\ ops < MaxOps /\ Live /\ EnvWal
   /\ pc' = "w_hdr" /\ todo' = <<>> /\ ops' = ops + 1
   /\ UNCHANGED <<dvars, lvars, refImg, salts, mx, ckpted, mvars>>
   /\ \E ns \in 1..MaxPg, M \in SUBSET Pages, out \in {"commit", "rollback"}, dup \in {0} \cup Pages :
@@ -332,7 +336,7 @@ WEnd ==
          cidx == {j \in (woff + 1)..Len(fr) : fr[j].commit # 0 /\ good(j)}
      IN IF cidx = {}
         THEN /\ okImage' = (okImage /\ plan.out # "commit")
-             /\ UNCHANGED <<ltxN, ltxLast, pageN, pos, woff, foff, wchk, fault, blk, refImg, okDelta, okChain, mx>>
+             /\ UNCHANGED <<ltxN, ltxLast, pageN, pos, woff, foff, wchk, fault, blk, refImg, okDelta, okChain, okRecover, crashed, mx>>
         ELSE LET e0 == CHOOSE i \in cidx : \A j \in cidx : i <= j
                  txi == (woff + 1)..e0
                  commit == fr[e0].commit
@@ -345,7 +349,8 @@ WEnd ==
                  cs == Checksum(pchk, blk, commit, newW)
                  snapBad == pos.t = 0
                  e == [min |-> pos.t + 1, max |-> pos.t + 1, pre |-> pos.c, post |-> cs.c, commit |-> commit,
-                       pages |-> [p \in {q \in pgs : q <= commit} |-> fr[lastOf(p)].c]]
+                       pages |-> [p \in {q \in pgs : q <= commit} |-> fr[lastOf(p)].c],
+                       wsalt |-> wsalt, woff |-> woff, wn |-> e0 - woff]
                  tooBig == \E p \in pgs : p > commit      \* ltx encoder refuses pages beyond commit
                  newRef == IF plan.out = "commit" THEN NewImage ELSE refImg
              IN IF goneBad \/ cs.err # "none" \/ snapBad \/ tooBig
@@ -364,7 +369,7 @@ WEnd ==
                                             /\ \A p \in DOMAIN e.pages : p <= e.commit /\ p # LockPg)
                      /\ okChain' = (okChain /\ e.pre = pos.c)
                      /\ okImage' = (okImage /\ plan.out = "commit")
-                     /\ UNCHANGED fault
+                     /\ UNCHANGED <<fault, okRecover, crashed>>
   /\ UNCHANGED <<dbf, jr, wal, psKnown, mode, dirty, pchk, wsalt, plan, todo, ops, salts, ckpted>>
   /\ H("WEnd", [x |-> 0])
 
@@ -372,7 +377,7 @@ WEnd ==
 \* into the database file, the file is cut to the committed size; the log itself stays (it is restarted
 \* by the next writer).  kind = "TRUNCATE" additionally cuts the log to zero bytes.
 Ckpt ==
-  /\ pc = "idle" /\ ops < MaxOps /\ Live /\ mode = "wal" /\ wal.ex /\ mx > 0 /\ ~ckpted
+  /\ pc = "idle" /\ ops < MaxOps /\ Live /\ EnvWal /\ wal.ex /\ mx > 0 /\ ~ckpted
   /\ ops' = ops + 1
   /\ UNCHANGED <<jr, ltxN, ltxLast, psKnown, pageN, pos, mode, dirty, woff, wsalt, fault, pc, plan, todo, refImg, salts, mvars>>
   /\ \E kind \in {"PASSIVE", "TRUNCATE"} :
@@ -416,6 +421,104 @@ LCkpt ==
   /\ UNCHANGED <<jr, ltxN, ltxLast, psKnown, pos, mode, dirty, woff, wsalt, fault, pc, plan, todo, refImg, salts, mvars>>
   /\ H("LCkpt", [x |-> 0])
 
+
+(* ====================== crash and restart (DB.Open, db.go) ====================== *)
+Min2(a, b) == IF a < b THEN a ELSE b
+\* valid committed prefix of a WAL as WALReader sees it: [pgs, commit, lastOf]
+WalCommitted(w) ==
+  LET fr == w.frames
+      valid(j) == w.hdr # 0 /\ \A i \in 1..j : /\ fr[i].salt = w.hdr
+                                                /\ IF i = 1 THEN fr[i].ptx = 0 /\ fr[i].pk = w.hdr
+                                                   ELSE fr[i].ptx = fr[i - 1].tx /\ fr[i].pk = fr[i - 1].k
+      cset == {j \in 1..Len(fr) : fr[j].commit # 0 /\ valid(j)}
+  IN IF cset = {} THEN [any |-> FALSE, commit |-> 0, img |-> <<>>]
+     ELSE LET last == Max(cset)
+              lastOf(p) == Max({i \in 1..last : fr[i].pg = p})
+          IN [any |-> TRUE, commit |-> fr[last].commit, img |-> [p \in {fr[i].pg : i \in 1..last} |-> fr[lastOf(p)].c]]
+
+\* write pages m (function pg -> content) into file d, extending it with ZERO as needed
+WritePages(d, m) ==
+  LET top == IF DOMAIN m = {} THEN Len(d) ELSE Max({Len(d)} \cup DOMAIN m)
+  IN [p \in 1..top |-> IF p \in DOMAIN m THEN m[p] ELSE IF p <= Len(d) THEN d[p] ELSE ZERO]
+Resize(d, n) == IF n <= Len(d) THEN SubSeq(d, 1, n) ELSE d \o [i \in 1..(n - Len(d)) |-> ZERO]
+
+\* The result of Store.Open on durable state (d = database file, j = journal, w = WAL, last = newest LTX file).
+\* Returns [fault, dbf, wal, pageN, mode, psKnown, pchk, pos].
+Reopen(d, j, w, last, n) ==
+  LET psHdr == d # <<>>
+      mode0 == IF psHdr /\ d[1].wal THEN "wal" ELSE "rb"
+      \* syncWALToLTX
+      walShort == n > 0 /\ w.ex /\ w.hdr # 0 /\ w.hdr = last.wsalt /\ Len(w.frames) < last.woff
+      w1 == IF n > 0 /\ w.ex /\ w.hdr # 0
+            THEN IF w.hdr # last.wsalt THEN NoWal
+                 ELSE [w EXCEPT !.frames = SubSeq(@, 1, Min2(Len(@), last.woff + last.wn))]
+            ELSE w
+      \* rollbackJournal
+      jPlay == j.ex /\ j.hdr # "none"
+      jNoPS == jPlay /\ ~psHdr
+      d1 == IF jPlay /\ psHdr THEN Resize(WritePages(d, j.recs), j.orig) ELSE d
+      \* CheckpointNoLock
+      wc == WalCommitted(w1)
+      d2 == IF w1.ex /\ d1 # <<>> /\ wc.any THEN Resize(WritePages(d1, wc.img), wc.commit) ELSE d1
+      \* initDatabaseFile
+      n3 == IF d2 = <<>> THEN 0 ELSE d2[1].sz
+      mode3 == IF FixModeOnOpen THEN (IF d2 # <<>> /\ d2[1].wal THEN "wal" ELSE "rb") ELSE mode0
+      \* apply the newest LTX file again
+      d4 == IF n > 0 THEN (IF last.commit > 0 THEN Resize(WritePages(d2, last.pages), last.commit) ELSE <<>>) ELSE d2
+      n4 == IF n > 0 THEN last.commit ELSE n3
+      mode4 == IF n > 0 /\ 1 \in DOMAIN last.pages /\ last.pages[1].wal THEN "wal"
+               ELSE IF n > 0 /\ last.commit = 0 THEN "rb" ELSE mode3
+      pc4 == [p \in 1..Max({n4, Len(d4)}) |-> IF p <= Len(d4) /\ p # LockPg THEN d4[p] ELSE ZERO]
+      chk4 == {<<p, pc4[p]>> : p \in {q \in 1..n4 : q # LockPg /\ pc4[q] # ZERO}}
+      missing == \E q \in 1..n4 : q # LockPg /\ pc4[q] = ZERO
+      flt == IF walShort THEN "wal-short"
+             ELSE IF jNoPS /\ ~FixJournalNoPS THEN "journal-no-pagesize"
+             ELSE IF n > 0 /\ (missing \/ chk4 # last.post) THEN "recover-chk-mismatch"
+             ELSE "none"
+  IN [fault |-> flt, dbf |-> d4, wal |-> [w1 EXCEPT !.frames = <<>>, !.hdr = 0], pageN |-> n4, mode |-> mode4,
+      psKnown |-> (d4 # <<>>) \/ (d2 # <<>>), pchk |-> pc4,
+      pos |-> IF n > 0 THEN [t |-> last.max, c |-> last.post] ELSE [t |-> 0, c |-> EmptyChk]]
+
+\* The process dies.  mid = "none": between two operations of the pager (any pc);
+\* mid = "jfinal": inside CommitJournal after the LTX file was renamed and before the journal was invalidated;
+\* mid = "ckpt" / "lckpt": inside a client / LiteFS checkpoint after the pages in S were copied.
+Crash ==
+  /\ AllowCrash /\ ~crashed /\ Live /\ ops < MaxOps
+  /\ \E mid \in {"none", "jfinal", "ckpt", "lckpt"}, S \in SUBSET Pages :
+     LET jOK == /\ pc = "j_final" /\ jr.hdr = "valid" /\ dbf # <<>>
+                /\ \A p \in dirty : p <= dbf[1].sz => p <= Len(dbf)
+         commitJ == dbf[1].sz
+         pgsJ == {p \in dirty : p <= commitJ /\ p # LockPg}
+         rJ == ResetAfter(pchk, blk, commitJ)
+         csJ == Checksum(rJ[1], rJ[2], commitJ, <<>>)
+         eJ == [min |-> pos.t + 1, max |-> pos.t + 1, pre |-> pos.c, post |-> csJ.c, commit |-> commitJ,
+                pages |-> [p \in pgsJ |-> dbf[p]], wsalt |-> 0, woff |-> 0, wn |-> 0]
+         wcNow == WalCommitted(wal)
+         ckOK == pc = "idle" /\ EnvWal /\ wal.ex /\ wcNow.any /\ S # {} /\ S \subseteq DOMAIN wcNow.img
+         \* durable state at the moment of death
+         dD == IF mid \in {"ckpt", "lckpt"} THEN WritePages(dbf, [p \in S |-> wcNow.img[p]]) ELSE dbf
+         lastD == IF mid = "jfinal" THEN eJ ELSE ltxLast
+         nD == IF mid = "jfinal" THEN ltxN + 1 ELSE ltxN
+         expect == IF mid = "jfinal" THEN (IF plan.out = "commit" THEN NewImage ELSE refImg) ELSE refImg
+         r == Reopen(dD, jr, wal, lastD, nD)
+     IN /\ (mid = "none" => S = {})
+        /\ (mid = "jfinal" => S = {} /\ jOK /\ csJ.err = "none" /\ ~(pos.t = 0 /\ pgsJ # {q \in 1..commitJ : q # LockPg}))
+        /\ (mid \in {"ckpt", "lckpt"} => ckOK)
+        /\ dbf' = r.dbf /\ jr' = NoJr /\ wal' = r.wal /\ ltxLast' = lastD /\ ltxN' = nD
+        /\ psKnown' = r.psKnown /\ pageN' = r.pageN /\ pos' = r.pos /\ mode' = r.mode /\ dirty' = {}
+        /\ pchk' = r.pchk /\ blk' = <<>> /\ woff' = 0 /\ wsalt' = 0 /\ foff' = <<>> /\ wchk' = <<>>
+        /\ fault' = r.fault
+        /\ pc' = "idle" /\ plan' = NoPlan /\ todo' = <<>> /\ refImg' = expect /\ ops' = ops + 1
+        /\ mx' = 0 /\ ckpted' = FALSE /\ UNCHANGED salts
+        /\ crashed' = TRUE
+        /\ okRecover' = (IF r.fault # "none" THEN "fault:" \o r.fault
+                         ELSE IF ~(r.pageN = Len(expect) /\ SameImage([p \in 1..r.pageN |-> IF p <= Len(r.dbf) THEN r.dbf[p] ELSE ZERO], expect))
+                              THEN "image-not-of-newest-ltx"
+                         ELSE IF nD > 0 /\ r.pos.c # {<<p, expect[p]>> : p \in {q \in 1..Len(expect) : q # LockPg}} THEN "checksum"
+                         ELSE "ok")
+        /\ UNCHANGED <<okDelta, okChain, okImage>>
+        /\ H("Crash", [mid |-> mid, S |-> S, at |-> pc])
+
 \* retention sweep with a retention period that has already passed for every file: all but the
 \* newest file are removed (db.go EnforceRetention; no backup client configured)
 Retain ==
@@ -424,7 +527,7 @@ Retain ==
   /\ UNCHANGED <<dbf, jr, wal, ltxLast, lvars, pc, plan, todo, refImg, salts, mx, ckpted, mvars>>
   /\ H("Retain", [x |-> 0])
 
-Next == \/ Retain \/ BeginJ \/ JCreate \/ JSync \/ JPage \/ JRbTrunc \/ JRbPage \/ JFinal \/ JTrunc
+Next == \/ Crash \/ Retain \/ BeginJ \/ JCreate \/ JSync \/ JPage \/ JRbTrunc \/ JRbPage \/ JFinal \/ JTrunc
         \/ BeginW \/ WHdr \/ WFrame \/ WEnd \/ Ckpt \/ LCkpt
 Spec == Init /\ [][Next]_vars
 
@@ -439,6 +542,9 @@ C02_Delta == okDelta
 C02_Outcome == okImage          \* committed transactions are captured, rolled-back ones are not
 C09_Chain == okChain /\ (ltxN > 0 => ltxLast.post = pos.c /\ ltxLast.max = pos.t)
 C02_AtMostOne == [][pos'.t \in {pos.t, pos.t + 1}]_vars
+C05_Recover == okRecover = "ok"
+\* after a restart the journal mode LiteFS believes is the one in the database header
+C05_ModeAfterRestart == (crashed /\ pc = "idle" /\ fault = "none" /\ dbf # <<>>) => (mode = "wal") = refImg[1].wal
 CacheSound == \A b \in 1..Len(blk) : blk[b].ok => blk[b].agg = BlockAgg(pchk, b - 1)
 
 \* emission of replay scripts (one per distinct idle state / per finished behaviour)
